@@ -46,6 +46,7 @@ class Contract:
     trusted: bool = False                      # contract assumed, body not verified (listed in evidence)
     note: str = ''
     lemma: bool = False                        # pure spec lemma: no code, goal must be valid
+    at_calls: Dict[str, Any] = field(default_factory=dict)   # call-site assertions keyed by the source text of the callee expression
     accepts: List[str] = field(default_factory=list)   # documented keyword parameters the function must accept
     optional: bool = False                     # the function may be absent (e.g. a method a dataclass generates unless written by hand)
     bounded: bool = False                      # decided only by the bounded run-time contract check (never counted as proved)
@@ -148,9 +149,12 @@ class Sidecar:
                 con.no_raise = self._lit(v)
             elif k == 'invariants':
                 con.invariants = {self._lit(kk): vv for kk, vv in zip(v.keys, v.values)}
+            elif k == 'at_calls':
+                # {"<source text of the called expression>": (lambda <names in scope>: ..., [props])}: must hold whenever that call is made
+                con.at_calls = {self._lit(kk): (vv.elts[0], self._lit(vv.elts[1])) for kk, vv in zip(v.keys, v.values)}
             elif k == 'variants':
                 con.variants = {self._lit(kk): vv for kk, vv in zip(v.keys, v.values)}
-            elif k in ('total', 'result_kind', 'result_fresh', 'result_opaque', 'preamble', 'slices', 'raises_assumed', 'bounded', 'optional', 'accepts', 'mutable', 'frame', 'props', 'total_attr_roots', 'trusted', 'note'):
+            elif k in ('total', 'result_kind', 'result_fresh', 'result_opaque', 'preamble', 'slices', 'raises_assumed', 'bounded', 'optional', 'accepts', 'mutable', 'frame', 'props', 'total_attr_roots', 'trusted', 'note', 'uses_old'):
                 setattr(con, k, self._lit(v))
             elif k == 'goal' and is_lemma:
                 con.ensures = self._clauses(v, 'lemma')
